@@ -42,6 +42,9 @@ func caseC01(c *Ctx) {
 		caseBig(c)
 		return
 	}
+	if c.Case%5 == 2 && !cloneChain(c) {
+		return
+	}
 	cfg := GenCfg(c.R, 0)
 	if c.Case%7 == 3 && len(cfg.Types) < maskBits() {
 		// one component type larger than a memory page
@@ -313,7 +316,23 @@ func caseC11(c *Ctx) {
 	p.Scale(2, "RelSet", "RelExchange", "BuilderAdd", "BatchSetRel", "RelExchangeBatch", "BatchExchange", "NewBatch", "BatchRemoveEntities")
 	p.Zero("RegisterType", "QueryCheck")
 	o := Opts{Events: true, Track: true, Model: c.Case%4 == 0}
-	s := RunHistory(c.R, cfg, o, p)
+	s := NewSess(cfg, o)
+	g := NewGen(c.R, s, p)
+	for i := 0; i < p.Steps && !s.Failed(); i++ {
+		op := g.Next()
+		if c.Case%3 == 1 && op.Q && isBatchKind(op.K) && op.Ill == "" && s.lsn != nil && i%2 == 0 {
+			// the listener is only installed once the batch call has returned its query: the events of a Q variant
+			// are due when the query is closed or exhausted, to the listener that is installed then
+			s.W.SetListener(nil)
+			s.onQueryOpen = func() { s.W.SetListener(s.lsn) }
+			s.Do(op)
+			s.onQueryOpen = nil
+			s.W.SetListener(s.lsn)
+			s.Cov.N["listener_installed_while_batch_query_open"]++
+			continue
+		}
+		s.Do(op)
+	}
 	n := s.Cov.N
 	multi := n["ev_cell:relswapped.targetchanged.single"]+n["ev_cell:relswapped.targetchanged.batch"]+n["ev_cell:relkept.targetchanged.single"]+n["ev_cell:relkept.targetchanged.batch"]+
 		n["ev_cell:reladded.targetchanged.single"]+n["ev_cell:relremoved.targetchanged.single"] >= 1
